@@ -25,7 +25,7 @@ func init() {
 		}}},
 		Run: run,
 		Floors: func(t string) map[string]int64 {
-			m := map[string]int64{"partner.same_datum": 10000, "partner.wgs84_area_of_use": 2000, "partner.wgs84_small_towgs84": 1000, "partner.geographic_without_datum": 1000, "closure_pair": 5000, "ell.sphere": 100, "units.non_metre": 1000, "pm.set": 500}
+			m := map[string]int64{"partner.same_datum": 10000, "partner.wgs84_area_of_use": 2000, "partner.wgs84_small_towgs84": 1000, "partner.geographic_without_datum": 1000, "position.conic_near_pole": 300, "closure_pair": 5000, "ell.sphere": 100, "units.non_metre": 1000, "pm.set": 500}
 			for _, p := range []string{"longlat", "merc", "lcc", "aea", "eqdc", "tmerc", "utm", "krovak"} {
 				m["proj."+p] = 300
 			}
@@ -159,6 +159,7 @@ func run(c *core.Ctx, idx int) {
 	}
 	for k := 0; k < 4; k++ {
 		var lon, lat float64
+		nearPole := false
 		if area != nil {
 			var ok bool
 			lon, lat, ok = d.PosIn(r, *area)
@@ -168,6 +169,18 @@ func run(c *core.Ctx, idx int) {
 			}
 		} else {
 			lon, lat = d.Pos(r)
+			if (d.Proj == "lcc" || d.Proj == "aea" || d.Proj == "eqdc") && r.Chance(0.06) {
+				// the cone-side latitudes reach the pole: co-latitudes from 3 deg down to 1e-4 deg
+				// (the pole itself has no defined longitude and is left out)
+				colat := math.Pow(10, r.Range(-4, 0.5))
+				if d.LatMax > 0 {
+					lat = 90 - colat
+				} else {
+					lat = -90 + colat
+				}
+				c.Count("position.conic_near_pole")
+				nearPole = true
+			}
 		}
 		// longitude in the partner's frame; keep all frames inside (-180, 180)
 		lg := lon
@@ -198,9 +211,21 @@ func run(c *core.Ctx, idx int) {
 		}
 		detail["back"] = []float64{b.x, b.y}
 		dl, dp := lonDiff(b.x, lg), math.Abs(b.y-lat)
+		if nearPole {
+			// Within 3 degrees of a pole the meridians converge: the conic inverses recover the
+			// longitude from atan2 of metre-sized offsets at a radius that goes to zero, so a
+			// micrometre of rounding (or of the first-order datum-shift inverse) is 1e-5 degrees
+			// of longitude. That is the conditioning of the problem, not of the code, so the
+			// longitude difference is judged on the parallel (dl * cos(lat)); the latitude is
+			// judged as everywhere, and the centimetre re-projection clause is not judged here.
+			dl *= math.Cos(lat * math.Pi / 180)
+		}
 		c.Max("max_roundtrip_deg."+partner, math.Max(dl, dp))
 		if dl > 1e-6 || dp > 1e-6 {
 			c.Violate("roundtrip-deg:"+key, fmt.Sprintf("%s: inverse(forward(p)) is off by (%.3g, %.3g) deg (p=(%v, %v), back=(%v, %v))", d.Proj, dl, dp, lg, lat, b.x, b.y), detail)
+			continue
+		}
+		if nearPole {
 			continue
 		}
 		a2 := once(geo, def, b.x, b.y)
